@@ -18,6 +18,7 @@ type Global struct {
 	Binding int    `json:"binding"`
 	GForm   string `json:"gform"` // spelling of the @group argument: plain usuffix isuffix hex const expr
 	BForm   string `json:"bform"`
+	Rev     bool   `json:"rev"` // attribute ORDER in the text: false @group @binding, true @binding @group
 }
 
 // IO is one entry-point input or output (a bare parameter / result or a member of an IO struct).
@@ -33,6 +34,9 @@ type IO struct {
 	Invariant bool   `json:"invariant"`
 	Blend     int    `json:"blend"` // -1 (no @blend_src) | 0 | 1
 	BlForm    string `json:"blform"`
+	// Rev is the attribute ORDER in the text (WGSL gives it no meaning): false = @builtin @invariant /
+	// @location @blend_src @interpolate, true = the reverse (@invariant @builtin / @interpolate @blend_src @location)
+	Rev bool `json:"rev"`
 }
 
 // Param is a parameter or a result: kind bare (one IO), struct (IO struct), none (no result).
@@ -335,6 +339,11 @@ func (r *renderer) ioAttrs(io IO) string {
 			}
 		}
 	}
+	if io.Rev {
+		for i, j := 0, len(a)-1; i < j; i, j = i+1, j-1 {
+			a[i], a[j] = a[j], a[i]
+		}
+	}
 	return strings.Join(a, " ")
 }
 
@@ -433,7 +442,12 @@ func Render(m *Module) string {
 	}
 	for i, g := range m.Globals {
 		if IsResource(g.Kind) {
-			fmt.Fprintf(&r.b, "@group(%s) @binding(%s) %s\n", r.attrArg(g.Group, g.GForm), r.attrArg(g.Binding, g.BForm), tyDecl(g, i+2))
+			// (the arguments are spelled in group, binding order so that named constants keep their numbering)
+			ga, ba := "@group("+r.attrArg(g.Group, g.GForm)+")", "@binding("+r.attrArg(g.Binding, g.BForm)+")"
+			if g.Rev {
+				ga, ba = ba, ga
+			}
+			fmt.Fprintf(&r.b, "%s %s %s\n", ga, ba, tyDecl(g, i+2))
 		} else {
 			r.b.WriteString(tyDecl(g, i+2) + "\n")
 		}
